@@ -10,6 +10,7 @@ From Coq Require Import String.
 From Verif Require Import Lib.Base Lib.Dec Lib.PyStr Gen.PyChars
   Repro.ListView Repro.ListSpec Repro.ListLemmas Repro.ListProofs Repro.ListEditProofs Repro.ListRefProofs
   Repro.ListCommaBase Repro.ListCommaProofs.
+From Verif Require Repro.ListCheck Repro.ListCheckProofs.
 
 Definition is_comma (k : lkind) : bool := match k with Comma => true | Space => false end.
 
@@ -314,6 +315,70 @@ Proof.
   vm_compute in H1. injection H1 as <-. vm_compute. eexists. reflexivity.
 Qed.
 
+(** 9. agree_implies_holds: the bridge between the correspondence and the theorems above.
+
+       For every case of the check (Repro/ListCheck.v): whenever the implementation behaved like
+       the model ([agree]: same read-out, same outcome of every operation, same exception at
+       close, same dump, same fresh and repeated interpretation), the property held on what the
+       implementation did ([holds]).  Only [CView] cases inside [value_ok] are judged by [holds];
+       all other constructors hold trivially.
+
+       Without a side condition the statement is FALSE: [holds] uses [o_valid] (a fresh parse of
+       the dump has no error element), an observation [agree] never looks at.
+       [ListCheckProofs.judged c] (boolean, computed from the case), for a [CView] case inside
+       [value_ok]: [o_valid]; the hypotheses of theorems 5 / 7 ([closed_value], [name_ok], every
+       operation one of append / remove / replace / snapshot / ref.value / ref.value = x /
+       ref.remove() with good values - not append_separator / append_newline / append_comment);
+       and [close_ok]: a refused write-back of the model happens only for an emptied list.
+       [close_ok] follows, for both list kinds, from [ends_on_comment v = false] (theorem 8 for
+       comma lists, theorem 10 below for whitespace lists): [C11_agree_implies_holds_text]
+       restates the bridge with that condition on the value text in place of [closed_value] and
+       [close_ok], so that - apart from the observation [o_valid] - the side condition speaks
+       about the INPUT of the case only. *)
+Theorem C11_agree_implies_holds :
+  forall c, ListCheckProofs.judged c = true -> ListCheck.agree c = true -> ListCheck.holds c = true.
+Proof. exact ListCheckProofs.agree_implies_holds. Qed.
+
+Theorem C11_agree_implies_holds_text :
+  forall c, ListCheckProofs.judged_text c = true -> ListCheck.agree c = true -> ListCheck.holds c = true.
+Proof. exact ListCheckProofs.agree_implies_holds_text. Qed.
+
+(** 10. the write-back of a whitespace-separated list succeeds whenever there is something to
+        write: the analogue of theorem 8 ([C11_session_close_succeeds_comma]) that was missing.  For
+        a value text whose last line is not a comment line and every sequence of the operations of
+        theorem 5: if the edited list is not empty, closing the view raises nothing. *)
+Theorem C11_session_close_succeeds_space :
+  forall name v os,
+    value_ok v = true -> ends_on_comment v = false -> name_ok name = true ->
+    forallb value_op os = true ->
+    a_values (snd (a_run os (a_init (split_spec false v)))) <> [] ->
+    sr_close (run_session Space name v os) = None.
+Proof. exact ListCheckProofs.session_close_succeeds_space. Qed.
+
+(** every value of a reference split is free of comment lines (so the fresh reading that [holds]
+    expects, [map drop_comment_lines final], is [final] itself); from ListSpec alone *)
+Theorem C11_split_values_plain :
+  forall comma v x, In x (split_spec comma v) -> drop_comment_lines x = x.
+Proof. exact ListCheckProofs.split_spec_plain. Qed.
+
+(** [judged] and [agree] hold together on non-trivial cases: a removal from a comma list, an
+    append and a removal on a whitespace list *)
+Example C11_agree_implies_holds_nonvacuous :
+  let cs :=
+    [ListCheck.CView true "" "F" " a, #b\00000a" "Z: 9\00000a" [ListCheck.PRemove "a"] (Ok ["a"; "#b"])
+       [ListCheck.ODone ["#b"] None] None "F: #b\00000aZ: 9\00000a" true (Ok ["#b"]) (Ok ["#b"]);
+     ListCheck.CView false "" "f" " foo\00000a" "\00000a\00000a" [ListCheck.PAppend "foo"; ListCheck.PRemove "foo"]
+       (Ok ["foo"]) [ListCheck.ODone ["foo"; "foo"] None; ListCheck.ODone ["foo"] None] None
+       "f: foo\00000a\00000a\00000a" true (Ok ["foo"]) (Ok ["foo"])] in
+  forallb ListCheckProofs.judged cs = true /\ forallb ListCheckProofs.judged_text cs = true
+  /\ forallb ListCheck.agree cs = true
+  /\ forallb ListCheck.holds cs = true
+  /\ forallb (fun c => match c with
+                       | ListCheck.CView _ _ _ v _ _ _ _ _ _ _ _ _ => value_ok (dec v)
+                       | _ => false
+                       end) cs = true.
+Proof. vm_compute. repeat split. Qed.
+
 Print Assumptions C11_view_reads_split.
 Print Assumptions C11_view_noop_identity.
 Print Assumptions C11_view_edit_readback_space.
@@ -325,3 +390,7 @@ Print Assumptions C11_view_edit_valid_comma.
 Print Assumptions C11_view_session_refines_comma.
 Print Assumptions C11_view_close_succeeds_comma.
 Print Assumptions C11_session_close_succeeds_comma.
+Print Assumptions C11_agree_implies_holds.
+Print Assumptions C11_split_values_plain.
+Print Assumptions C11_agree_implies_holds_text.
+Print Assumptions C11_session_close_succeeds_space.
